@@ -14,6 +14,8 @@ def opstr(o):
             return 'fn ' + k['fn']
         if 'v' in k:
             return 'const %s%s' % (k['v'], ('{%s}' % k['name'].split('::')[-1]) if 'name' in k else '')
+        if 'promoted' in k:
+            return 'const promoted[%d]' % k['promoted']
         return 'const %s' % (k.get('name') or k.get('s') or k.get('ty'))
     p = op_place(o)
     return ('move ' if 'm' in o else '') + repr(p)
@@ -67,6 +69,11 @@ def show(fn):
             print('    %-4s %s' % (t.get('l'), k))
 
 
+def show_promoted(fn):
+    for i, bl in enumerate(fn.r.get('promoted') or []):
+        print(' promoted[%d]:' % i, '; '.join('%r = %s' % (Place(s['lhs']), rvstr(s['rv'])) for b in bl for s in b['s']))
+
+
 def show_hir(n, ind=0):
     attrs = {k: v for k, v in n.items() if k not in ('c', 'pat', 'params', 'path', 'guard', 'body')}
     print(' ' * ind + json.dumps(attrs)[:160])
@@ -96,3 +103,4 @@ if __name__ == '__main__':
         show_hir(fn.r.get('hir', {}))
     else:
         show(fn)
+        show_promoted(fn)
